@@ -17,7 +17,8 @@ class NoFold( Exception ):
 _SAFE_BUILTINS = { 'str': str, 'int': int, 'len': len, 'max': max, 'min': min, 'bool': bool, 'abs': abs, 'tuple': tuple, 'list': list,
                    'all': all, 'any': any, 'zip': lambda *a: list( zip( *a )), 'sorted': sorted, 'set': set, 'dict': dict, 'enumerate': lambda x: list( enumerate( x )),
                    'range': lambda *a: list( range( *a )), 'sum': sum, 'isinstance': None,
-                   'bytes': bytes, 'bytearray': lambda *a: bytes( bytearray( *a )), 'float': float, 'repr': repr }
+                   'bytes': bytes, 'bytearray': lambda *a: bytes( bytearray( *a )), 'float': float, 'repr': repr,
+                   'map': lambda f, *a: list( map( f, *a )), 'filter': lambda f, a: list( filter( f, a )), 'reversed': lambda a: list( reversed( a )) }
 
 
 def fold( e, env=None ):
@@ -122,9 +123,13 @@ def fold( e, env=None ):
             return base.get( *[ fold( a, env ) for a in e.args ] )
     if isinstance( e, ast.Dict ) and all( k is not None for k in e.keys ):
         return { fold( k, env ): fold( v, env ) for k, v in zip( e.keys, e.values ) }
-    if isinstance( e, ast.Call ) and isinstance( e.func, ast.Name ) and isinstance( env, dict ) and ( 'call:' + e.func.id ) in env and not e.keywords:
-        # a helper of the analysed file, made available by the rule ( see helper_calls ): evaluated on the folded arguments
-        return env['call:' + e.func.id]( *[ fold( a, env ) for a in e.args ] )
+    if isinstance( e, ast.Call ) and isinstance( e.func, ast.Name ) and env is not None and not e.keywords:
+        # a callable the rule put into the environment under the callee's name ( a marking cast ), or a helper of the analysed file made
+        # available as 'call:<name>' ( see helper_calls ): evaluated on the folded arguments
+        for key in ( e.func.id, 'call:' + e.func.id ):
+            f_ = _env_get( env, key )
+            if f_ is not NoFold and callable( f_ ):
+                return f_( *[ fold( a, env ) for a in e.args ] )
     if isinstance( e, ast.Call ) and isinstance( e.func, ast.Name ) and e.func.id in _SAFE_BUILTINS and _SAFE_BUILTINS[e.func.id] is not None and not e.keywords:
         args = [ fold( a, env ) for a in e.args ]
         try:
@@ -159,6 +164,17 @@ def fold( e, env=None ):
             elif d in env:
                 return env[d]
     raise NoFold( ast.dump( e )[:80] )
+
+
+def _env_get( env, name ):
+    if env is None:
+        return NoFold
+    if isinstance( env, dict ):
+        return env.get( name, NoFold )
+    try:
+        return env( name )
+    except NoFold:
+        return NoFold
 
 
 def _bind( target, value, local ):
